@@ -235,24 +235,31 @@ func doGen(run *emit.Run, base *env, K []byte, name string, steps []gstep) {
 					run.Violate("C11:genesis-key-not-of-body:"+typeName(a.Body), fmt.Sprintf("%s: after InitGenesis an attestation is stored under key %x but its stored body has key %x", name, a.Key, realKey(a.Body)), replay)
 				}
 			}
-			// well keyed before, and no other exported attestation re-keys onto it  =>  unchanged afterwards
-			rekeyed := map[string]int{}
+			// every attestation stored before is stored afterwards under the key of its body, with the votes and the body of
+			// exactly one of the attestations that had that body key before (never dropped, never merged)
+			groups := map[string][]attRec{}
 			for _, b := range before {
-				rekeyed[string(realKey(b.Body))]++
+				k := string(realKey(b.Body))
+				groups[k] = append(groups[k], b)
 			}
-			for _, b := range before {
-				if !bytes.Equal(b.Key, realKey(b.Body)) || rekeyed[string(b.Key)] != 1 {
+			for k, g := range groups {
+				a, ok := after[k]
+				if !ok {
+					run.Violate("C11:genesis-attestation-lost:"+typeName(g[0].Body), fmt.Sprintf("%s: attestation %x (votes %v, body key %x) is gone after export / import", name, g[0].Key, g[0].Votes, k), replay)
 					continue
 				}
-				a, ok := after[string(b.Key)]
-				switch {
-				case !ok:
-					run.Violate("C11:genesis-attestation-lost:"+typeName(b.Body), fmt.Sprintf("%s: attestation %x (votes %v) is gone after export / import", name, b.Key, b.Votes), replay)
-				case fmt.Sprint(a.Votes) != fmt.Sprint(b.Votes):
-					run.Violate("C11:genesis-votes-changed:"+typeName(b.Body), fmt.Sprintf("%s: attestation %x had votes %v before and %v after export / import", name, b.Key, b.Votes, a.Votes), replay)
-				case len(effectDiff(a.Body, b.Body)) > 0:
-					run.Violate("C11:genesis-body-changed:"+typeName(b.Body), fmt.Sprintf("%s: attestation %x body differs in %v after export / import", name, b.Key, effectDiff(a.Body, b.Body)), replay)
+				match := false
+				for _, b := range g {
+					if fmt.Sprint(a.Votes) == fmt.Sprint(b.Votes) && len(effectDiff(a.Body, b.Body)) == 0 {
+						match = true
+					}
 				}
+				if !match {
+					run.Violate("C11:genesis-votes-changed:"+typeName(a.Body), fmt.Sprintf("%s: after export / import attestation %x has votes %v, which are the votes of none of the %d attestation(s) stored for that body before (first: %v)", name, a.Key, a.Votes, len(g), g[0].Votes), replay)
+				}
+			}
+			if len(after) != len(groups) {
+				run.Violate("C11:genesis-attestation-appeared", fmt.Sprintf("%s: %d attestations after export / import for %d distinct bodies before", name, len(after), len(groups)), replay)
 			}
 			run.Count("gen-step", "reimport")
 			terms = append(terms, "C11.GReimport")
